@@ -76,9 +76,34 @@ def events_for(args):
                 out = outcome(lambda: VerifyingKey.from_der(spki), curve)
             else:
                 out = outcome(lambda: VerifyingKey.from_pem(der.topem(spki, "PUBLIC KEY")), curve)
-        events.append({"c": c, "n": n, "how": how, "inp": b2l(s), "out": out})
+        events.append({"c": c, "n": n, "how": how, "inp": b2l(s), "oid": list(curve.oid), "out": out})
         x, y = coords_of(s)
         keys.append(f8_keys(p, a, n, x, y))
+    # damaged SubjectPublicKeyInfo wrappers around a valid point (decided by KeyCodec.tla's strict decoder)
+    if strings:
+        gx, gy = G
+        for enc_pt in (b"\x04" + gx.to_bytes(L, "big") + gy.to_bytes(L, "big"), bytes([2 + (gy & 1)]) + gx.to_bytes(L, "big")):
+            alg = der.encode_oid(*oid_ecPublicKey)
+            variants = []
+            for unused in range(8):
+                ok_pad = unused == 0 or enc_pt[-1] & (2 ** unused - 1) == 0
+                bits = b"\x03" + der.encode_length(len(enc_pt) + 1) + bytes([unused]) + enc_pt
+                variants.append(der.encode_sequence(der.encode_sequence(alg, curve.encoded_oid), bits))
+            good = variants[0]
+            variants += [der.encode_sequence(der.encode_sequence(der.encode_oid(1, 2, 840, 10045, 2, 2), curve.encoded_oid),
+                                             der.encode_bitstring(enc_pt, 0)),
+                         der.encode_sequence(der.encode_sequence(alg, der.encode_oid(1, 3, 9999, 77)), der.encode_bitstring(enc_pt, 0)),
+                         good + b"\x00", good[:-1], b"\x30\x81" + good[1:2] + good[2:],
+                         der.encode_sequence(der.encode_sequence(alg, curve.encoded_oid, b"\x05\x00"), der.encode_bitstring(enc_pt, 0)),
+                         der.encode_sequence(der.encode_sequence(alg, curve.encoded_oid), der.encode_bitstring(enc_pt, 0), b"\x05\x00"),
+                         der.encode_sequence(der.encode_sequence(alg), der.encode_bitstring(enc_pt, 0)),
+                         der.encode_sequence(der.encode_sequence(alg, curve.encoded_oid), der.encode_octet_string(enc_pt))]
+            for blob in variants:
+                out = outcome(lambda: VerifyingKey.from_der(blob), curve)
+                if not out["ok"] and out["exc"] == "UnknownCurveError":
+                    pass
+                events.append({"c": c, "n": n, "how": "spki", "inp": b2l(blob), "oid": list(curve.oid), "out": out})
+                keys.append([])
     for (x, y, kind) in pointpairs:
         try:
             if kind == "aff":
@@ -90,7 +115,7 @@ def events_for(args):
             out = outcome(lambda: VerifyingKey.from_public_point(pt, curve, validate_point=True), curve)
         except BaseException as e:  # noqa
             out = {"ok": False, "exc": type(e).__name__}
-        events.append({"c": c, "n": n, "how": "point", "inp": [x, y], "out": out})
+        events.append({"c": c, "n": n, "how": "point", "inp": [x, y], "oid": list(curve.oid), "out": out})
         keys.append(f8_keys(p, a, n, x, y))
     return events, keys
 
